@@ -703,9 +703,15 @@ func genProv(prof provProfile) func(r *Rng, run Runner, n int, tier string) {
 				if prof.faults {
 					run.Do("clearfail")
 				}
-				if prof.faults && r.chance(35) {
+				if prof.faults && (r.chance(35) || (prof.wReward > 0 && r.chance(40))) {
 					calls := []string{"client.CreateClient", "connection.GetConnection", "client.GetClientState", "staking.GetHistoricalInfo", "staking.UnbondingTime", "channel.ChanCloseInit"}
-					run.Do(fmt.Sprintf("fail call=%s nth=%d", calls[r.intn(len(calls))], 1+r.intn(3)))
+					nth := 1 + r.intn(3)
+					if prof.wReward > 0 {
+						// reward allocation: a failure at any external call of any (consumer, denom) step of the block
+						calls = []string{"distribution.FundCommunityPool", "distribution.AllocateTokensToValidator", "bank.SendCoinsFromModuleToModule", "distribution.GetCommunityTax"}
+						nth = 1 + r.intn(4)
+					}
+					run.Do(fmt.Sprintf("fail call=%s nth=%d", calls[r.intn(len(calls))], nth))
 				}
 				run.Do(fmt.Sprintf("begin dh=1 dt=%d", p.genDt(r)))
 				if prof.faults {
@@ -749,6 +755,9 @@ func init() {
 	ev := provProfile{name: "evidence", nv: 6, nvExtra: 20, maxvals: 12, M: 12, epoch: 3, unb: 40 * sec, prelaunch: 4, lowPower: true, keyPool: 6,
 		wCreate: 2, wUpdate: 3, wRemove: 2, wOpt: 8, wAssign: 12, wStake: 14, wBlock: 16, wInfr: 4, wVal: 10, wEvid: 36}
 	streams["evidence"] = StreamDef{New: func(t *Trace) Runner { return newProvRunner(t) }, Gen: genProv(ev)}
+	rwf := rw
+	rwf.name, rwf.faults = "rewardfaults", true
+	streams["rewardfaults"] = StreamDef{New: func(t *Trace) Runner { return newProvRunner(t) }, Gen: genProv(rwf)}
 	streams["rewards"] = StreamDef{New: func(t *Trace) Runner { return newProvRunner(t) }, Gen: genProv(rw)}
 	streams["epoch"] = StreamDef{New: func(t *Trace) Runner { return newProvRunner(t) }, Gen: genProv(ep)}
 }
